@@ -38,6 +38,10 @@ class Device:
         return f"device({self.type})"
 
 
+class PyNative:
+    """Base of plain python records of the model whose attributes interpreted code may read directly."""
+
+
 class Token:
     """Opaque external value with identity (e.g. torch.preserve_format)."""
 
